@@ -146,6 +146,40 @@ func genCases(seed uint64, n int, throws bool, w *bufio.Writer) {
 		for k := 0; k < nr; k++ {
 			rules = append(rules, rule{g.names[k], g.expr(1 + r.IntN(3))})
 		}
+		if r.IntN(10) == 0 {
+			// a family of its own: nullable only THROUGH a cycle. X <- Y / "" ; Y <- X ; Z <- Y Z "x" / "c" (under every
+			// assignment of the names, which decides the order in which the analysis meets the rules): Y is nullable, so
+			// Z reaches itself at the same position; an analysis that settles Y's nullability while X is still being
+			// visited never sees it
+			nm := []string{"A", "B", "C", "D"}
+			r.Shuffle(3, func(a, b int) { nm[a], nm[b] = nm[b], nm[a] })
+			x, y, z := nm[0], nm[1], nm[2]
+			ref := func(n string) *node { return &node{tag: "ref", name: n} }
+			lit := func() *node { return &node{tag: "lit"} }
+			empty := &node{tag: "lit", flag: true}
+			var prefix *node = ref(y)
+			if r.IntN(3) == 0 {
+				prefix = &node{tag: "lab", kids: []*node{ref(y)}}
+			}
+			rules = []rule{
+				{x, &node{tag: "ch", kids: []*node{ref(y), empty}}},
+				{y, ref(x)},
+				{z, &node{tag: "ch", kids: []*node{{tag: "seq", kids: []*node{prefix, ref(z), lit()}}, lit()}}},
+			}
+			if r.IntN(2) == 0 {
+				// ... or the cycle closes through a second rule: Z <- Z "y" / Y W "x" / "c" ; W <- Z
+				rules[2] = rule{z, &node{tag: "ch", kids: []*node{{tag: "seq", kids: []*node{ref(z), lit()}},
+					{tag: "seq", kids: []*node{prefix, ref("D"), lit()}}, lit()}}}
+				rules = append(rules, rule{"D", ref(z)})
+			}
+			g.names = nil
+			for _, ru := range rules {
+				g.names = append(g.names, ru.name)
+			}
+			sort.Strings(g.names)
+			sort.Slice(rules, func(a, b int) bool { return rules[a].name < rules[b].name })
+			nr = len(rules)
+		}
 		var gs strings.Builder
 		gs.WriteString(strconv.Itoa(nr))
 		for _, ru := range rules {
@@ -533,7 +567,7 @@ func dupCase(line string) (res string) {
 	for k, r := range list {
 		if k > 0 && (id+k)%2 == 0 {
 			d := ast.NewRule(p0, ast.NewIdentifier(p0, r.Name.Val))
-			switch (id / 2 + k) % 3 {
+			switch (id/2 + k) % 3 {
 			case 0:
 				d.Expr = ast.NewLitMatcher(p0, "a")
 			case 1:
